@@ -264,7 +264,28 @@ def policy(repo, tier):
     return {"obligations": obls, "functions": fns}
 
 
-EXTRA = [policy]
+def _carve_task(key):
+    def run(repo, tier):
+        from contracts import c12_cost
+        return c12_cost.carve_obligations(repo, tier, only=key)
+    run.__name__ = f"carve[{key[0].split('/')[-1]}::{key[1]}#{key[2]}]"
+    return run
+
+
+def _cost(name):
+    def run(repo, tier):
+        from contracts import c12_cost
+        return getattr(c12_cost, name)(repo, tier)
+    run.__name__ = name
+    return run
+
+
+def _extra():
+    from contracts import c12_cost
+    return [policy, _cost("self_suffix_obligations"), _cost("xml_policy"), _cost("nested_scan_obligations")] + [_carve_task(k) for k in c12_cost.carve_tasks()]
+
+
+EXTRA = _extra()
 
 
 def known_findings(kf, violations, repo, tier):
@@ -294,7 +315,10 @@ def known_findings(kf, violations, repo, tier):
 TRUSTED = ["defusedxml forbids entity expansion", "stat().st_size is the size read_file would read"]
 ASSUMED_MODELS = ["pathlib.Path.stat/st_size", "open()", "io.BytesIO.seek/tell (position, SEEK_END = size)", "router contracts (C07)"]
 BOUNDED = []
-ASSUMPTIONS = ["peak memory and run time as quantities are not decided (not expressible as contracts); amplification inside olefile / lzma / deflate / openpyxl is not decided",
+ASSUMPTIONS = ["peak memory and run time as quantities are not decided (not expressible as contracts); what is decided are the structural causes of super-linear cost: "
+               "unbounded repeat expansion (amp-bounded#repeat-site), overlapping carving of a scanned buffer (amp-bounded#carve-while-k: copies of different iterations "
+               "are disjoint, so total copy size <= len(buffer)), per-iteration re-slicing (no-self-suffix-rebinding), nested re-scans (nested-scans-skip-the-part-handed-out); "
+               "amplification inside olefile / lzma / deflate / openpyxl is not decided",
                f"a repetition count is 'bounded' when <= {REPEAT_CAP} on its path", "EXC-ANY", "policy obligations decided by AST dominance analysis"]
 
 REPLAY_UNKNOWN = True    # undecided / out-of-subset items are searched natively (replay) before being reported UNDECIDED
